@@ -768,13 +768,37 @@ def run(ctx):
 
     try:
         ctx.set_time_budget(t_start + 0.45 * budget)
-        for i, rng in ctx.cases(ctx.pick(45, 450), 'plan'):
+        for i, rng in ctx.cases(ctx.pick(40, 300), 'plan'):
             plan_case(ctx, gen_case(rng), rgs, types_, rng)
         ctx.set_time_budget(t_start + 0.70 * budget)
-        for i, rng in ctx.cases(ctx.pick(14, 110), 'runcrash'):
+        for i, rng in ctx.cases(ctx.pick(12, 70), 'runcrash'):
             runcrash_case(ctx, gen_case(rng, small=True), rgs, types_, rng)
     except FakeEngineGap as e:
         ctx.inconclusive_because(f'the combiner used an engine feature the provenance fake does not model: {e}')
     ctx.set_time_budget(t_start + budget)
     if ctx.replay is None or ctx.replay.get('phase') == 'partition':
         partition_phase(ctx)
+
+
+# ----------------------------------------------------------------------------------------------
+# Validation record (scratch worktrees of /repo at HEAD, VERIF_REPO=..., quick tier, seed 0)
+#
+# Genuine defect found on the unchanged tree (partition phase; merge phases silent):
+#   partitioning/last-base-uncovered   `while n < contig_length` in calc_parts stops when n == contig_length, i.e. when an
+#       interval ends at contig_length - 1: the last base of the contig is in no interval.  Real tables: GRCh38 chrM /
+#       GRCh37 MT (16569) for interval sizes 1,3,7,18,37,75,108,151,152; chr2 for 21913/21914, chr17 for 12214/12215, ...
+#       (every size whose real_size+1 divides len-1).  Defaults (1.2 Mb, 60 Mb) are not affected.
+#       Proposed fix /verif/proposed_fixes/C38-partitioning_last-base-uncovered.diff (`<=`): patched tree silent; for all
+#       16571 chrM sizes + 14 full-table sizes the output is byte-identical wherever the original was right (16576 cases)
+#       and differs only by the added single-base interval in the 9 wrong ones.
+#
+# Breaks (each on top of the partition fix so that exit 1 is due to the break):                       caught (exit 1)?
+#   B1 _step_gvcfs drops one gvcf only when the remaining gvcfs are exactly two full steps             yes  merge/input-lost (+ engine errors: names misaligned)
+#   B2 self.save() in the middle of _step_gvcfs (inputs popped, outputs not yet written)               yes  merge/input-lost, merge/no-output (runcrash + save-fault phases)
+#   B3 external sample names sliced one short when exactly one gvcf remains                            yes  resume/engine-error (ids/files mismatch), resume/no-loadable-plan
+#   B4 _uuid derived from save_path (stable across resume; job ids restart at 1 -> temp paths reused)  yes  merge/input-lost + merge/input-duplicated
+#   B5 to_dict keeps at most 2*branch_factor datasets per bin                                           yes  merge/input-lost (resume only)
+#   B6 final-write shortcut taken when up to two datasets were produced by the last gvcf step          yes  merge/input-lost
+#   partition fix reverted (= unchanged tree)                                                           yes  partitioning/last-base-uncovered
+# Not judged (counted): intervals that hold interval_size+1 bases (end - start == interval_size, both ends inclusive);
+# a resume that hits a half-written output (crash inside the final write) is refused by the engine ("file already exists").
